@@ -316,6 +316,12 @@ func (p *Program) buildFieldWriters() {
 	fw.built = true
 }
 
+// exportedFieldKey: is the field named by a heap key "<pkg>.<Struct>.<field>" exported?
+func exportedFieldKey(key string) bool {
+	name := key[strings.LastIndex(key, ".")+1:]
+	return name == "" || token.IsExported(name)
+}
+
 func backwardClosure(cg *callgraph.Graph, seed map[*ssa.Function]bool) map[*ssa.Function]bool {
 	set := map[*ssa.Function]bool{}
 	var work []*callgraph.Node
@@ -350,7 +356,9 @@ func (p *Program) mayWriteField(fn *ssa.Function, key string) bool {
 	if !fw.built {
 		p.buildFieldWriters()
 	}
-	if fw.addrTaken[key] || fw.reflectW[fn] {
+	// the reflect package refuses to set an unexported field, so a reflective decoder changes one
+	// only through an address handed to it (addrTaken)
+	if fw.addrTaken[key] || (fw.reflectW[fn] && exportedFieldKey(key)) {
 		return true
 	}
 	r, ok := fw.reach[key]
@@ -359,6 +367,18 @@ func (p *Program) mayWriteField(fn *ssa.Function, key string) bool {
 		fw.reach[key] = r
 	}
 	return r[fn]
+}
+
+// fieldAddrTaken: does the program hand the address of this field (or of something inside it) to a
+// call, a store or an interface, so that code of any package may write through it?
+func (p *Program) fieldAddrTaken(key string) bool {
+	pkgReach.mu.Lock()
+	defer pkgReach.mu.Unlock()
+	fw := &fieldWr
+	if !fw.built {
+		p.buildFieldWriters()
+	}
+	return fw.addrTaken[key]
 }
 
 func (p *Program) whyMayWrite(fn *ssa.Function, key string) string {
